@@ -182,6 +182,58 @@ def vec_case(draw):
 
 
 @st.composite
+def vec_scale_case(draw):
+    """several hundred to a few thousand labels, most of them in bins of their own (more set bits than a byte counts);
+    built from few draws"""
+    n = draw(st.sampled_from([255, 256, 257, 300, 512, 513, 700, 1500, 3000]))
+    res = draw(st.sampled_from([1, 100, 1400, 701]))
+    g = res * draw(st.integers(1, 6))
+    jitter = draw(st.integers(1, max(1, g)))
+    x0 = draw(st.integers(0, 50000))
+    labels = sorted(x0 + i * g + (i * i * 7) % jitter for i in range(n))
+    start = draw(st.sampled_from([0, x0, x0 - 3 * res]))
+    return {"labels": labels, "res": res, "start": start, "end": None, "blur": draw(st.integers(0, 4))}
+
+
+def check_vec_history(case):
+    """one SequenceGenerator serves many maps: each call gets a list object of its own that is dropped right after the
+    call (as the lists of a molecule are once it has been aligned); every returned sequence must be the blurred bit vector
+    of the labels passed in that call"""
+    from src.correlation.sequence_generator import SequenceGenerator
+    res, rad = case["res"], case["blur"]
+    gen = SequenceGenerator(res, rad)
+    for k, c in enumerate(case["lists"]):
+        s = sut(gen.positionsToSequence, list(c["labels"]), c["start"], c["end"])
+        n = len(s)
+        exp = model_blur(model_bits(c["labels"], res, c["start"], n), rad)
+        req([int(x) for x in s] == exp, "sequence-of-another-call",
+            lambda: f"call {k + 1} on one generator: sequence {[int(x) for x in s][:30]} is not the blurred vector {exp[:30]} of the labels passed ({c['labels'][:8]}..)")
+        e = c["end"] if c["end"] else c["labels"][-1]
+        for p in c["labels"]:
+            if c["start"] <= p <= e:
+                req(math.floor((p - c["start"]) / res) < n, "label-outside-vector", f"call {k + 1}: label {p} outside the sequence of length {n}")
+    return {"nontrivial": len(case["lists"]) >= 2, "classes": [f"calls={len(case['lists'])}"]}
+
+
+@st.composite
+def vec_history_case(draw):
+    res = draw(st.sampled_from([1, 2, 100, 1400]))
+    k = draw(st.integers(2, 5))
+    n = draw(st.integers(1, 12))
+    lists = []
+    for _ in range(k):
+        m = n if draw(st.integers(0, 3)) else draw(st.integers(1, 12))     # mostly lists of equal length
+        x = draw(st.integers(0, 20 * res))
+        lab = []
+        for _ in range(m):
+            lab.append(x)
+            x += draw(st.integers(0, 6 * res))
+        start = draw(st.sampled_from([0, 0, lab[0], lab[0] - res]))
+        lists.append({"labels": lab, "start": start, "end": draw(st.sampled_from([None, None, lab[-1] + res]))})
+    return {"res": res, "blur": draw(st.integers(0, 3)), "lists": lists}
+
+
+@st.composite
 def centre_case(draw):
     res = draw(st.one_of(st.integers(1, 12), st.sampled_from([100, 1400, 701, 999, 5000]), st.integers(1, 5000)))
     start = draw(st.integers(-50000, 500000))
@@ -215,6 +267,10 @@ def subchecks(tier):
             describe="1-4 labels on 0..12 x res x start x end", time_budget_s=3000),
         Sub("blur-exhaustive", "enum", check_blur, enumerate=enum_blur, exhaustive=True, describe="all bit vectors len<=10 x radius 0..4"),
         Sub("vectorise-random", "hyp", check_vec, strategy=vec_case, examples=6000 if q else 150000, shrink_budget=800),
+        Sub("vectorise-scale", "hyp", check_vec, strategy=vec_scale_case, examples=160 if q else 4000, shrink_budget=60,
+            describe="255-3000 labels in bins of their own (more set bits than a byte counts)"),
+        Sub("generator-history", "hyp", check_vec_history, strategy=vec_history_case, examples=4000 if q else 100000, shrink_budget=600,
+            describe="one SequenceGenerator reused for 2-5 label lists, each passed as a list object of its own"),
         Sub("bin-centre", "hyp", check_centre, strategy=centre_case, examples=6000 if q else 200000, shrink_budget=800),
         Sub("peaks", "hyp", check_peaks, strategy=peaks_case, examples=8000 if q else 300000, shrink_budget=800,
             required_classes=("tie-at-cut",)),
